@@ -120,6 +120,7 @@ def pattern_settings():
            name='connecting 2x2'),
         mk([C([1]), C([1]), C([1])], [C([1]), C([1]), C([1])], name='permuting 3x3'),
         mk([C([1]), C([1])], [C([1]), C([1])], name='permuting 2x2'),
+        mk([C([1]), C([1]), C([1]), C([1])], [C([1]), C([1]), C([1]), C([1])], name='permuting 4x4 (beyond 3x3, pattern encoders only)'),
         mk([C([2])], [C([0, 1]), C([0, 1]), C([0, 1])], name='unordered combining 2 of 3'),
         mk([C([2])], [C(min_=0), C(min_=0), C(min_=0)], name='unordered combining with replacement'),
         mk([C([0, 2])], [C([1]), C([0, 1])], name='non-contiguous degree list'),
@@ -205,7 +206,7 @@ def instances(tier, seed):
             # the patterns conditional existence produces (single absences), in two variants
             s = dict(s)
             sp = _simple_patterns(s)
-            s['patterns'] = sp[:1] if ((k_s+i_enc) % 2 == 0 or '2x4' in (s.get('name') or '')) else sp[:3]
+            s['patterns'] = sp[:1] if ((k_s+i_enc) % 2 == 0 or '2x4' in (s.get('name') or '') or '4x4' in (s.get('name') or '')) else sp[:3]
             if (s.get('name') or '').startswith('connecting'):
                 # the connecting pattern needs as many sources as targets in every existence pattern
                 from spec.conn import pattern as _pat
